@@ -538,4 +538,110 @@ Section W.
       destruct (apply_new_remote _ _ _ _ _ Hl Ho Hwd Ea) as [Hok1 Hd1]. inversion H. subst d ok. cbn [andb].
       split; [exact Hok1 | exact Hd1].
   Qed.
+
+  (* ---------------------------------------------------------------- the Merge path on ANY stored list *)
+
+  Lemma key_from_length keys it k : key_from keys it = Some k -> length k = length keys.
+  Proof.
+    revert k. induction keys as [|q r IH]; intros k H; cbn in H; [inversion H; reflexivity|].
+    destruct (fld it q); [|discriminate]. destruct (key_from r it) as [kr|]; [|discriminate]. inversion H. cbn. rewrite (IH kr eq_refl). reflexivity.
+  Qed.
+
+  (* the hash of an element with an incomplete identifier is shorter than an identifier *)
+  Lemma hash_from_short keys it :
+    forallb (fun i => key_kind_ok (kind_of sch i)) keys = true ->
+    forallb (fun i => negb (kind_eqb (kind_of sch i) KStructHelper)) (removelast keys) = true ->
+    key_from keys it = None -> (length (hash_from sch keys it) < length keys)%nat.
+  Proof.
+    induction keys as [|q r IH]; intros Hk Hl H; [discriminate|].
+    cbn in H. cbn [hash_from]. destruct (fld it q) as [v|]; [|cbn; lia].
+    destruct (key_from r it) as [kr|] eqn:Er; [discriminate|].
+    destruct r as [|q2 r2]; [discriminate|].
+    cbn [forallb] in Hk. apply andb_true_iff in Hk. destruct Hk as [_ Hk2].
+    change (removelast (q :: q2 :: r2)) with (q :: removelast (q2 :: r2)) in Hl. cbn [forallb] in Hl.
+    apply andb_true_iff in Hl. destruct Hl as [Hq Hl2].
+    specialize (IH Hk2 Hl2 eq_refl). cbn [length] in *.
+    destruct (kind_of sch q); cbn [length]; try lia.
+  Qed.
+
+  Lemma merge_item_unnamed new y : lwf new ->
+    match key_of sch y with Some k => mem_key k (keys_of sch new) | None => false end = false ->
+    merge_item sch true new y = y.
+  Proof.
+    intros Hn Ha. unfold merge_item.
+    assert (E : find_last_hash sch (hash_key sch y) new = None); [|rewrite E; reflexivity].
+    destruct (key_of sch y) as [k|] eqn:Ek.
+    - rewrite (wf_hash sch Hwf y k Ek), (find_last_hash_lfind sch Hwf new k Hn). apply lfind_None. apply mem_key_false. exact Ha.
+    - (* no element of new has so short a hash *)
+      destruct (wf_parts sch Hwf) as [_ [Hk [Hl _]]].
+      assert (Hk' : forallb (fun i => key_kind_ok (kind_of sch i)) (s_keys sch) = true).
+      { rewrite forallb_forall in *. intros i Hi. specialize (Hk i Hi). apply andb_true_iff in Hk. tauto. }
+      pose proof (hash_from_short (s_keys sch) y Hk' Hl Ek) as Hshort. fold (hash_key sch y) in Hshort.
+      clear Ha. induction new as [|x r IH]; [reflexivity|].
+      destruct (lwf_cons_inv sch x r Hn) as [_ [[kx Hkx] [Hr _]]]. cbn [find_last_hash]. rewrite (IH Hr).
+      rewrite (wf_hash sch Hwf x kx Hkx). destruct (eqb_key kx (hash_key sch y)) eqn:E; [|reflexivity].
+      apply eqb_key_eq in E. pose proof (key_from_length _ _ _ Hkx) as Hlen. rewrite E in Hlen. lia.
+  Qed.
+
+  Lemma merge_item_protected new y : ch y = false -> merge_item sch true new y = y.
+  Proof.
+    intros Hc. unfold merge_item. destruct (find_last_hash sch (hash_key sch y) new); [|reflexivity].
+    rewrite wa_ch, Hc. reflexivity.
+  Qed.
+
+  Lemma In_sort_data l y : In y l -> In y (sort_data sch l).
+  Proof.
+    intros H. unfold sort_data. destruct l as [|a r]; [exact H|]. destruct (s_keys sch); [exact H|].
+    eapply Permutation_in; [apply Permutation_sym; apply isort_perm | exact H].
+  Qed.
+
+  (* An accepted remote write that goes through Merge / SortData keeps every element that is
+     protected or that it does not address — whatever the stored list looks like (repeated
+     identifiers, elements without identifier, any order). *)
+  Theorem weak_write l u d :
+    weak_shape sch u = true ->
+    update_list sch true l (u_new u) (u_fp u) (u_fd u) = Ok (d, true) ->
+    forall y, In y l -> (ch y = false \/ addressed sch false u y = false) -> In y d.
+  Proof.
+    intros Hw H y Hy Hcase. unfold weak_shape in Hw. apply andb_true_iff in Hw. destruct Hw as [Hfp Hnew].
+    apply negb_true_iff in Hfp. destruct (filter_data (u_fp u)) eqn:Efp; [discriminate|]. clear Hfp.
+    assert (Haddr : addressed sch false u y = false ->
+                    addr_del sch (u_fd u) y = false /\ addr_dat sch (u_fp u) (u_new u) y = false).
+    { unfold addressed. cbn [orb]. intros E. apply orb_false_iff in E. exact E. }
+    unfold update_list, after_delete in H.
+    (* the delete phase *)
+    assert (Hdel : exists ex2, In y ex2 /\ exists d1 ok1, apply_new sch true ex2 (u_new u) (u_fp u) = Ok (d1, ok1) /\ d = d1 /\ ok1 = true).
+    { destruct (filter_data (u_fd u)) as [f|] eqn:Efd.
+      - destruct (delete_filtered sch true f l) as [[d0 ok0]|] eqn:Ed; [|discriminate].
+        destruct (delete_filtered_remote f l d0 ok0 Ed) as [Hok0 Hd0]. destruct ok0.
+        + rewrite (Hd0 eq_refl) in *. exists (del_rm f l). split.
+          * assert (Had : ad f y = false).
+            { destruct Hcase as [Hc|Ha].
+              - symmetry in Hok0. rewrite forallb_forall in Hok0. specialize (Hok0 y Hy). rewrite Hc, orb_false_r in Hok0.
+                apply negb_true_iff in Hok0. exact Hok0.
+              - rewrite <- (addr_del_ad (u_fd u) f y Efd). apply Haddr. exact Ha. }
+            unfold del_rm. unfold ad in Had. destruct (f_sel f) as [sel|], (f_elems f) as [el|]; try discriminate;
+              [apply in_map_iff; exists y; rewrite Had; split; [reflexivity | exact Hy]
+              |apply filter_In; rewrite Had; split; [exact Hy | reflexivity]].
+          * destruct (apply_new sch true (del_rm f l) (u_new u) (u_fp u)) as [[d1 ok1]|]; [|discriminate].
+            exists d1, ok1. inversion H. subst. split; [reflexivity|]. split; reflexivity.
+        + destruct (apply_new sch true l (u_new u) (u_fp u)) as [[d1 ok1]|]; discriminate.
+      - exists l. split; [exact Hy|]. destruct (apply_new sch true l (u_new u) (u_fp u)) as [[d1 ok1]|]; [|discriminate].
+        exists d1, ok1. inversion H. subst. split; [reflexivity|]. split; reflexivity. }
+    destruct Hdel as [ex2 [Hy2 [d1 [ok1 [Ea [-> ->]]]]]]. clear H.
+    (* the data phase: Merge + SortData *)
+    unfold apply_new in Ea. rewrite Efp in Ea.
+    assert (Hm : (let '(d0, ok0) := merge sch true ex2 (u_new u) in Ok (sort_data sch d0, ok0)) = Ok (d1, true)).
+    { destruct (u_new u) as [|n0 r] eqn:En; [exact Ea|].
+      assert (Hid : has_identifiers sch n0 = true).
+      { apply (complete_ids sch). pose proof (wf_items_lwf sch _ Hnew) as [_ [Hc _]]. inversion Hc. assumption. }
+      rewrite Hid in Ea. exact Ea. }
+    clear Ea. rewrite merge_remote in Hm. injection Hm as Hd Hok. subst d1. apply In_sort_data. apply in_map_iff. exists y. split; [|exact Hy2].
+    destruct Hcase as [Hc|Ha]; [apply merge_item_protected; exact Hc|].
+    destruct (Haddr Ha) as [_ Hdat]. unfold addr_dat in Hdat. rewrite Efp in Hdat.
+    destruct (u_new u) as [|n0 r] eqn:En.
+    - unfold merge_item. reflexivity.
+    - pose proof (wf_items_lwf sch _ Hnew) as Hn. apply merge_item_unnamed; [exact Hn|].
+      pose proof Hn as [_ [Hc _]]. inversion Hc as [|? ? [k0 Hk0] _]. subst. rewrite Hk0 in Hdat. exact Hdat.
+  Qed.
 End W.
